@@ -30,17 +30,82 @@ def plan(tier, seed):
     n = 256 if tier == "quick" else 10000
     per = 16 if tier == "quick" else 125
     nops = 12 if tier == "quick" else 40
-    return [{"lo": lo, "hi": min(n, lo + per), "nops": nops} for lo in range(0, n, per)]
+    units = [{"lo": lo, "hi": min(n, lo + per), "nops": nops} for lo in range(0, n, per)]
+    units += [{"kind": "rejected", "shard": i, "of": 8} for i in range(8)]
+    return units
+
+
+def run_rejected(unit, tier, seed, acc):
+    """'A call that is rejected with a documented exception leaves every part as valid as it was':
+    every out-of-domain value of every row of the C09 property table is assigned on a fresh object
+    (after a valid value, so that a half-removed previous setting shows); when the call raises
+    TypeError/ValueError the part(s) holding the object are re-validated."""
+    from lxml import etree
+    from props import c09
+    from vlib import env, histories, xsdkit
+
+    t = c09.T()
+    rows = [r for i, r in enumerate(t.ROWS) if i % unit["of"] == unit["shard"]]
+    for row in rows:
+        # only values the docstring / the enumeration itself excludes (a documented rejection: out-of-range
+        # number, member without an XML value); wrong Python types are not what C03 quantifies over
+        vals = [(v, c) for v, c in c09.grid(row) if c in ("outside-bound", "no-xml-member")]
+        for idx, (v, vcls) in enumerate(vals):
+            prs = c09.new_deck()
+            try:
+                s = c09.fresh_slide(prs, row, env.rng("C03rej", row.id, idx))
+                obj = c09.resolve(row.path, prs, s)
+            except Exception:  # noqa
+                acc.count("rejected:fixture_failed")
+                continue
+            primed = c09.pick_prime(row, obj) if idx % 2 == 0 else t.NOPRIME
+            if primed is not t.NOPRIME:
+                try:
+                    row.set(obj, primed)
+                except Exception:  # noqa
+                    pass
+            roots = [prs._element] if row.path.startswith("prs") else [s._element]
+            if ".chart" in row.path:
+                roots.append(c09.resolve(row.path[: row.path.index(".chart") + 6], prs, s)._chartSpace)
+            before = [xsdkit.validate_part(etree.tostring(r))[0] for r in roots]
+            try:
+                row.set(obj, v)
+            except (TypeError, ValueError):
+                acc.count("rejected_calls_checked")
+                acc.hit("rejected:" + row.id)
+                for r, b in zip(roots, before):
+                    after = xsdkit.validate_part(etree.tostring(r))[0]
+                    if after is None or b is None:
+                        continue
+                    for msg in after - b:
+                        acc.violation(
+                            "invalid-xml:rejected:%s:%s" % (row.id, histories._msg_class(msg)),
+                            "%s = %s was rejected (%s) but left a new schema error: %s" % (row.id, c09.short(v), "after %s" % c09.short(primed) if primed is not t.NOPRIME else "fresh", msg[:240]),
+                            {"row": row.id, "value": c09.enc(v), "idx": idx},
+                        )
+            except Exception:  # noqa  (wrong exception type: C09's business)
+                acc.count("rejected:other_exception")
+            else:
+                acc.count("rejected:value_was_accepted")
+            acc.case(desc=("rejected", row.id, vcls), nontrivial=True, cls="rejected-call")
 
 
 def run_unit(unit, tier, seed, acc):
     from vlib import histories
 
+    if unit.get("kind") == "rejected":
+        return run_rejected(unit, tier, seed, acc)
     histories.run_histories("xml", {"C03"}, unit, tier, seed, acc, save_every=None)
 
 
 def replay(w, acc):
     from vlib import histories
+
+    if "row" in w:
+        run_rejected({"shard": 0, "of": 1}, "quick", 0, acc)
+        acc.violations[:] = [v for v in acc.violations if v["witness"]["row"] == w["row"]]
+        print([(v["key"], v["what"][:300]) for v in acc.violations])
+        return
 
     histories.replay_history(w, acc, {"C03"})
     print([(v["key"], v["what"][:300]) for v in acc.violations])
